@@ -113,10 +113,35 @@ func (g *gate) open() {
 type autoWorld struct {
 	root  string
 	stage int
+	// bad: a directory that "does not exist" is materialised as a path below a regular file
+	// (ENOTDIR) instead of a missing entry (ENOENT): another way of not being scannable or watchable
+	bad bool
 }
 
 func autoKind(d string) string { return "v" + strings.ToLower(d) + ".com/cls" }
-func (w *autoWorld) dir(d string) string { return filepath.Join(w.root, "dirs", d) }
+func (w *autoWorld) dir(d string) string { return filepath.Join(w.root, "dirs", d, "d") }
+
+// absent makes directory d not exist (in the way this world does that); present creates it
+func (w *autoWorld) absent(d string) error {
+	top := filepath.Join(w.root, "dirs", d)
+	_ = os.Remove(w.dir(d))
+	if w.bad {
+		_ = os.Remove(top)
+		return os.WriteFile(top, []byte("a regular file where a directory is expected\n"), 0o644)
+	}
+	return os.MkdirAll(top, 0o755)
+}
+
+func (w *autoWorld) present(d string) error {
+	top := filepath.Join(w.root, "dirs", d)
+	if st, err := os.Lstat(top); err == nil && !st.IsDir() {
+		_ = os.Remove(top)
+	}
+	if err := os.MkdirAll(top, 0o755); err != nil {
+		return err
+	}
+	return os.Mkdir(w.dir(d), 0o755)
+}
 func (w *autoWorld) file(d, n string) string { return filepath.Join(w.dir(d), n) }
 func (w *autoWorld) staging() string {
 	w.stage++
@@ -152,11 +177,17 @@ func (w *autoWorld) do(a autoAct) error {
 	case "removefile":
 		return os.Remove(w.file(a.D, a.N))
 	case "rmdir":
-		return os.Remove(w.dir(a.D))
+		if err := os.Remove(w.dir(a.D)); err != nil {
+			return err
+		}
+		return w.absent(a.D)
 	case "mkdir":
-		return os.Mkdir(w.dir(a.D), 0o755)
+		return w.present(a.D)
 	case "renamediraway":
-		return os.Rename(w.dir(a.D), w.staging())
+		if err := os.Rename(w.dir(a.D), w.staging()); err != nil {
+			return err
+		}
+		return w.absent(a.D)
 	}
 	return nil
 }
@@ -187,7 +218,7 @@ func (w *autoWorld) view(c *cdi.Cache, dirs []string) autoView {
 	}
 	for p := range c.GetErrors() {
 		if rel, err := filepath.Rel(filepath.Join(w.root, "dirs"), p); err == nil {
-			if strings.Contains(rel, string(os.PathSeparator)) {
+			if strings.Count(rel, string(os.PathSeparator)) >= 2 {
 				v.FileErrs = append(v.FileErrs, rel)
 			} else {
 				v.DirErrs = append(v.DirErrs, rel)
@@ -217,14 +248,22 @@ func sameView(a, b autoView, dirErrs bool) bool {
 }
 
 // runAutoOnce executes the behaviour with one pacing; returns "" when the cache converged.
-func runAutoOnce(row *autoRow, pacing int, r *rand.Rand) (string, autoView, autoView, error) {
-	w := &autoWorld{root: mkScratch("auto")}
+func runAutoOnce(row *autoRow, pacing int, r *rand.Rand, bad bool) (string, autoView, autoView, error) {
+	w := &autoWorld{root: mkScratch("auto"), bad: bad}
 	defer os.RemoveAll(w.root)
 	_ = os.MkdirAll(filepath.Join(w.root, "dirs"), 0o755)
 	_ = os.MkdirAll(filepath.Join(w.root, "stage"), 0o755)
 	init := row.Hist[0]
+	exists := map[string]bool{}
 	for _, d := range init.Ex {
-		_ = os.Mkdir(w.dir(d), 0o755)
+		exists[d] = true
+	}
+	for _, d := range []string{"A", "B", "C"} {
+		if exists[d] {
+			_ = w.present(d)
+		} else {
+			_ = w.absent(d)
+		}
 	}
 	dirs := append([]string(nil), init.Nd...)
 	auto := true
@@ -342,7 +381,7 @@ func replayAutoRow(idx int, line []byte, seed int64, col *collector, pacings []i
 			r := rand.New(rand.NewSource(seed*7919 + int64(idx)*31 + int64(pacing)*7 + int64(at)))
 			var why string
 			var err error
-			pan, stack, hung := guarded(60*time.Second, func() { why, got, want, err = runAutoOnce(&row, pacing, r) })
+			pan, stack, hung := guarded(60*time.Second, func() { why, got, want, err = runAutoOnce(&row, pacing, r, idx%2 == 1) })
 			steps++
 			if pan != nil {
 				col.add(Mismatch{Case: idx, Step: pacing, Props: append([]string{"C08"}, props...), What: "panic", Got: fmt.Sprint(pan), Note: stack, Row: json.RawMessage(line)})
@@ -363,8 +402,13 @@ func replayAutoRow(idx int, line []byte, seed int64, col *collector, pacings []i
 			fails = append(fails, why)
 		}
 		if len(fails) == attempts {
-			col.add(Mismatch{Case: idx, Step: pacing, Props: props, What: "no-convergence", Want: want, Got: got,
-				Note: fmt.Sprintf("pacing %d (0 free-running, 1 recorded schedule, 2 watcher held until the end): %s; failed in %d fresh executions", pacing, fails[0], attempts),
+			p2 := props
+			if idx%2 == 1 {
+				p2 = append(append([]string{}, props...), "C13") // an unscannable directory and its repair
+			}
+			col.add(Mismatch{Case: idx, Step: pacing, Props: p2, What: "no-convergence", Want: want, Got: got,
+				Note: fmt.Sprintf("pacing %d (0 free-running, 1 recorded schedule, 2 watcher held until the end), missing directories are %s: %s; failed in %d fresh executions",
+					pacing, map[bool]string{false: "absent", true: "below a regular file"}[idx%2 == 1], fails[0], attempts),
 				Row: json.RawMessage(line)})
 		} else if len(fails) > 0 {
 			col.count("transient_failures", 1)
